@@ -224,7 +224,7 @@ PROPS['C09'] = dict(
 PROPS['C10'] = dict(
     category='other',
     technique='Kani contracts on the unit-level codecs (BOM table and code-unit pairing proved loop-free over all bytes) and on read_line line splitting per encoding (bounded); known finding D6 keyed by a foreign 0x0A byte',
-    level_text='proved (Verus, byte strings of every length): the lossy UTF-8 loop of Encoding::decode produces EXACTLY what lossy conversion is defined to produce -- the maximal valid prefix, one U+FFFD, then the conversion of what follows the invalid sequence (resuming right after its reported length; nothing further if the input ended inside it) -- in a buffer cleared first; it copies only validated prefixes, slices in range and terminates (functional correctness against the recursive definition, std's from_utf8 report uninterpreted). proved (Kani, every byte value): BOM table (from_bom) and pairing of bytes into LE / BE code units with the odd tail dropped. Bounded stand-ins: read_line splits a UTF-8 stream at the first LF byte and a UTF-16LE stream after the first LF unit (<= 4 bytes, every schedule); UTF-16 / UTF-8 lossy decoding of single units (thorough tier: CBMC needs long runs for String building)',
+    level_text='proved (Verus, byte strings of every length): the lossy UTF-8 loop of Encoding::decode produces EXACTLY what lossy conversion is defined to produce -- the maximal valid prefix, one U+FFFD, then the conversion of what follows the invalid sequence (resuming right after its reported length; nothing further if the input ended inside it) -- in a buffer cleared first; it copies only validated prefixes, slices in range and terminates (functional correctness against the recursive definition, the from_utf8 report of std uninterpreted). proved (Kani, every byte value): BOM table (from_bom) and pairing of bytes into LE / BE code units with the odd tail dropped. Bounded stand-ins: read_line splits a UTF-8 stream at the first LF byte and a UTF-16LE stream after the first LF unit (<= 4 bytes, every schedule); UTF-16 / UTF-8 lossy decoding of single units (thorough tier: CBMC needs long runs for String building)',
     level_note='known finding D6: in UTF-16 input any 0x0A byte that belongs to another code unit (e.g. U+4E0A) splits the line (KNOWN-FINDING line, witness harness c10_read_line_utf16_foreign_0a). Equality of whole decoded maps across the four encodings is not decided',
     verus=[dict(unit='enc', tier='quick')], kani=['encoding.kc', 'u16_iter.kc', 'decoder.kc'],
     only_prefix=['enc_', 'u16_', 'c10_'],
